@@ -10,7 +10,7 @@ DEMO=$(git status --porcelain | grep '^??' | awk '{print $2}' | grep '_test.go$'
 [ -z "$DEMO" ] && { echo "no demo test in worktree" > $OUT/confirm.txt; exit 1; }
 PKG=./$(dirname $DEMO)
 RUN=$(grep -oE 'func (Test[A-Za-z0-9_]+)' $DEMO | awk '{print $2}' | paste -sd'|')
-git stash -q -- $(git diff --name-only) 2>/dev/null; git checkout -q -- . ; 
+git checkout -q -- . ; 
 git apply --check $OUT/patch.diff || { echo "patch does not apply cleanly" > $OUT/confirm.txt; exit 1; }
 r_orig=$(go test -vet=off -count=1 -run "^($RUN)\$" $PKG 2>&1 | tail -3)
 echo "$r_orig" | grep -q '^ok' && orig=pass || orig=fail
